@@ -640,7 +640,7 @@ static void op_repair(World &W, const Json &op) {
     Obj &o = W.objs[(size_t) op["obj"].num() % World::NOBJ];
     if (!s.live || !o.valid) return;
     if (op.has("env")) { if (op["env"].isnull()) set_env(W, false, ""); else set_env(W, true, op["env"].str()); W.fault("ENV"); }
-    else if (o.legacy != env_legacy(W)) set_env(W, o.legacy, "1");  // hold the writer profile (C03 does not speak about changing it)
+    else if (o.legacy != env_legacy(W) && !W.threaded) set_env(W, o.legacy, "1");  // hold the writer profile (C03 does not speak about changing it); never touch the environment while other threads run
     Delivered D = deliver(W, o, s, op["dl"], op["fxall"]);
     int num = (int) D.ptrs.size();
     int dest = op["dest"].in();
@@ -823,7 +823,7 @@ static void op_plan(World &W, const Json &op) {
     // behavioural confirmation: reconstruct every requested fragment from the answer alone
     Obj &o = W.objs[(size_t) op["obj"].num() % World::NOBJ];
     if (rc == 0 && bad.empty() && op["confirm"].in(0) && o.valid && o.cfg.same(s.cfg)) {
-        if (o.legacy != env_legacy(W)) set_env(W, o.legacy, "1");
+        if (o.legacy != env_legacy(W) && !W.threaded) set_env(W, o.legacy, "1");
         for (int r : R) {
             thread_arena().release_all();
             std::vector<char *> fr;
